@@ -4,6 +4,7 @@ import (
 	"encoding/json"
 	"fmt"
 	"math/big"
+	"strings"
 	"sync"
 
 	"verif/internal/ev"
@@ -168,7 +169,9 @@ func runChainCases(c *ev.Ctx, spec string, cases []chainCase) {
 				}
 				tr := lastTx(sub)
 				c.Outcome(fmt.Sprintf("%s:%s:code%d", spec, cs.Class, tr.Code))
-				if sig, what := cs.Oracle(ref, sub); sig != "" {
+				if sig, what := cs.Oracle(ref, sub); strings.HasPrefix(sig, "harness:") {
+					c.HarnessError(fmt.Sprintf("%s case %s: %s", spec, cs.Name, what))
+				} else if sig != "" {
 					c.Report(spec+"/"+sig, what+"  [case "+cs.Name+": "+fmt.Sprint(blocksText(cs.Subject))+"]", caseReplay{spec, cs.Name, cs.Env, cs.Ref, cs.Subject, blocksText(cs.Subject)})
 				}
 				c.Distinct(spec + "|" + cs.Name)
